@@ -50,7 +50,7 @@ def why_not_site(case, rs, side, file, line, op):
     from lib.monitors import taint_shim as ts
     if not (rs.sources() if side == "source" else rs.sinks()):
         return "flow-under-empty-rules"
-    for relax in ("line", "unit", "language"):
+    for relax in ("line", "unit", "path", "language"):
         sites, _ = ts.find_sites(case["files"], rs, relax=(relax,))
         if any(s.side == side and s.file == file and s.line == line for s in sites):
             return f"rule-restriction-ignored:{relax}"
@@ -307,8 +307,21 @@ def main():
             if g["twist"]:
                 kinds.append(f"twist:{g['twist']}")
             for side in ("src_mode", "snk_mode"):
-                if g[side] not in ("base", "ok:line", "ok:unit"):
+                if g[side] not in ("base", "multi") and not g[side].startswith("ok:"):
                     kinds.append(f"rule:{g[side]}")
+                elif g[side].startswith("ok:"):
+                    chk.count(f"gadgets: rule restricted to its own site ({g[side]})", 1)
+            if g.get("restricted"):
+                rside, rkind, rmode = g["restricted"].split(":", 2)
+                chk.count(f"restricted rules of kind {rside}:{rkind}", 1)
+                if rmode in ("ok:line", "away:line"):
+                    chk.count("rules restricted by line only", 1)
+            if "decoy_of" in g:
+                chk.count("decoy sites (same name, excluded by the restriction)", 1)
+            if g.get("targets"):
+                chk.count("sink rules with several targets" if not g.get("bad_target") else "sink rules whose target list has an unknown keyword", 1)
+            if g.get("srcin"):
+                chk.count("gadgets with the source inside a callee", 1)
             for kd in kinds or ["positive"]:
                 neg_kinds[kd] = neg_kinds.get(kd, 0) + 1
                 chk.count(f"gadgets: {kd}", 1)
@@ -368,8 +381,18 @@ def main():
         chk.require("dynamic flows checked to lie inside the closure", 100 if not thorough else 2000)
         per = 4 if not thorough else 80
         for kd in (["twist:wrong-pos", "twist:tainted-receiver", "twist:other-key", "twist:near-miss-name", "rule:never", "rule:ext",
-                    "rule:away:line", "rule:away:unit", "rule:away:language", "rule:away:operation"] + [f"broken:{b}" for b in gen_flow.BROKEN]):
+                    "rule:away:line", "rule:away:unit", "rule:away:language", "rule:away:path",
+                    "rule:away:line+unit/L", "rule:away:line+unit/U", "rule:decoy"] + [f"broken:{b}" for b in gen_flow.BROKEN]):
             chk.require(f"gadgets: {kd}", per)
+        for m in ("ok:line", "ok:unit", "ok:path", "ok:line+unit"):
+            chk.require(f"gadgets: rule restricted to its own site ({m})", per)
+        for side, kinds in (("source", gen_flow.SOURCE_KINDS), ("sink", gen_flow.SINK_KINDS)):
+            for kd in kinds:
+                chk.require(f"restricted rules of kind {side}:{kd}", per * 2)
+        chk.require("gadgets: rule:away:operation", max(2, per // 2))
+        chk.require("rules restricted by line only", 2 * per)
+        chk.require("decoy sites (same name, excluded by the restriction)", 5 * per)
+        chk.require("sink rules with several targets", per)
     else:
         chk.nontrivial_case("replay-a")
         chk.nontrivial_case("replay-b")
